@@ -62,6 +62,8 @@ def _run_chunk(ctx, binary, lines, brief):
                 extra += " raw=%s" % f["raw"]
             if "tree" in f:
                 extra += " tree=%s" % f["tree"]
+                if "gs" in f and "ds" in f:
+                    extra += " gs=%s ds=%s" % (f["gs"], f["ds"])
             dl.append(l + extra + (" brief=1" if brief else ""))
     rc, model, err = ctx.run_model("model_c02", dl, timeout=3000)
     return impl, rc, model, err
@@ -136,6 +138,17 @@ def classify(c, io, mf):
         return ("broken", "cover-tree-wf-certificate", "the cover tree built by batch_create is not well formed (wf=%s): first child "
                 "carrying the parent's point / true parent distances / max_dist bounding all descendants / every sample once "
                 "— the hypothesis of cover_query_exact" % mf.get("wf"))
+    if method == "covertree" and "bt" in mf:
+        # the Lean model of batch_create (run with the scale values the real code computed) against the real tree
+        if mf.get("bh") != "ok":
+            return ("broken", "cover-build-hypothesis:%s" % mf.get("bh"), "the values of get_scale / dist_of_scale the real code "
+                    "computed violate a hypothesis of batchCreate_wf (%s: neg = a negative dist_of_scale, top = the largest "
+                    "distance from the first sample exceeds dist_of_scale(get_scale(it)), so batch_create drops samples)" % mf.get("bh"))
+        if mf["bt"] != "ok" or mf.get("bls") != "ok":
+            return ("broken", "corr:cover-build", "Lean model of batch_create (batch_insert / split / dist_split / max_set / "
+                    "set_leaf_scale, scale functions as computed by the real code) builds a tree different from the real one "
+                    "(bt=%s bls=%s: first differing preorder record id/scale/nchildren/max_dist/parent_dist of the model)"
+                    % (mf["bt"][:120], mf.get("bls")))
     if method == "covertree" and mf.get("mq") not in (None, "ok"):
         return ("broken", "corr:cover-query", "Lean model of the batch query run on the real tree returns candidate sets different "
                 "from the real query (%s)" % mf.get("mq"))
@@ -191,6 +204,8 @@ def judge(ctx, binary, cases, label, brief=False):
         elif "wf" in mf:
             ctx.stat("cover-trees-certified(wfTree)+model-query-run")
             ctx.stat("fidelity:cover-query-order-" + mf.get("mqorder", "?"))
+            if "bt" in mf:
+                ctx.stat("cover-trees-compared-with-batchCreate-model:" + ("identical" if mf["bt"] == "ok" else "different"))
         v = classify(c, io, mf)
         if v is None:
             ctx.stat("agree")
